@@ -12,6 +12,9 @@
 //! The tables live in a typed `static` (one model database per harness): keeping them inside the `Arc<Mutex<DBM>>` heap
 //! object makes CBMC treat every access as byte extraction from an untyped allocation (measured: 8M variables / 50M
 //! clauses for one row read; with a static: 57k variables).
+#[cfg(not(kani))]
+#[allow(unused_imports)]
+use crate::verif_kani_shim as kani;
 use std::path::PathBuf;
 
 use bitcoin::secp256k1::SecretKey;
@@ -340,7 +343,15 @@ impl DBM {
     }
 
     pub(crate) fn load_tracker(&self, uuid: UUID) -> Option<TransactionTracker> {
-        t().trackers.get(&uuid).map(|r| r.to_tracker())
+        // SELECT t.dispute_tx, t.penalty_tx, t.height, t.confirmed, a.user_id FROM trackers t INNER JOIN appointments a
+        let t = t();
+        t.trackers.get(&uuid).map(|r| {
+            let mut tr = r.to_tracker();
+            if let Some(a) = t.appointments.get(&uuid) {
+                tr.user_id = a.user_id;
+            }
+            tr
+        })
     }
 
     pub(crate) fn tracker_exists(&self, uuid: UUID) -> bool {
@@ -352,7 +363,13 @@ impl DBM {
         t.trackers
             .iter()
             .filter(|(u, _)| locator.map_or(true, |l| t.appointments.get(*u).map_or(false, |a| a.locator == l)))
-            .map(|(u, tr)| (*u, tr.to_tracker()))
+            .map(|(u, tr)| {
+                let mut x = tr.to_tracker();
+                if let Some(a) = t.appointments.get(u) {
+                    x.user_id = a.user_id;
+                }
+                (*u, x)
+            })
             .collect()
     }
 
@@ -396,6 +413,10 @@ impl DBM {
     }
 
     // ---- harness access (pre-state construction and observation; not part of the real API)
+    /// Empties the model database (the native twin run executes many sequences in one process).
+    pub(crate) fn verif_reset(&self) {
+        unsafe { TABLES = Tables::EMPTY };
+    }
     pub(crate) fn verif_user(&self, user_id: UserId) -> Option<UserInfo> {
         t().users.get(&user_id).cloned()
     }
